@@ -26,13 +26,15 @@ CLAIMED = {
         "text": "Theorem (simulation between the inspector's abstract state and the executor, by induction over the node list, for every pipeline, payload and context): if no node "
                 "error is reported and the initial context supplies every required key, then every node that is reached resolves all of its parameters - the run never fails because a "
                 "parameter is unresolvable or a required key is missing or was deleted, and (second simulation, over the data-type flow) no reached data node fails the type gate. It needs the order-sensitive required-key accumulation and the deleted-at-entry check, which are "
-                "generated facts with hard reflexivity obligations (all four inspection defects found by the check were repaired by fix commits); for each former variant a concrete accepted "
+                "generated facts with hard reflexivity obligations (all inspection defects found by the check were repaired by fix commits); for each former variant a concrete accepted "
                 "pipeline that fails on flow is proved (use-before-create, type flow across a context-only node, delete-then-rename). Per-node facts: reported created/suppressed keys are "
-                "the declared ones, unknown parameters are rejected by the same function at inspection and construction. Closed under the global context. The whole inspection report "
+                "the declared ones, unknown parameters are rejected by the same function at inspection and construction; reported origins are true of the run whose initial context holds just the "
+                "required keys (upper and lower simulation invariants): a parameter finally reported 'default' finds its key absent and takes its default, one reported 'context' takes the context value "
+                "(C02_origin_default_truthful / C02_origin_context_truthful; the inspector's second pass over shadowed defaults is a generated fact). Closed under the global context. The whole inspection report "
                 "(origins, created, suppressed, types, errors, required keys, validity) is compared with the model on generated pipelines every run, and every accepted pipeline is executed "
                 "with exactly the required keys (and with extras) under three dynamic oracles.",
         "note": "Models coq/Model/Inspect.v + Pipeline.v. Soundness assumes honest processors (declared created keys are written; checked dynamically). Type-flow soundness (C02_no_type_gate_failure) additionally assumes processors produce their declared output type. The initial payload's data type must suit the first data node. "
-                "Open finding F-C02-h (default shadowed by a key a later node requires).",
+                "Origin truthfulness assumes nodes write what they declare to create and delete what they declare to suppress (checked dynamically). That the node reported as 'context produced by node i' is the last writer is checked by the dynamic oracle only.",
         "technique": "Coq simulation proof (abstract interpretation soundness) + generated structural facts + whole-report differential correspondence + dynamic oracles",
         "design": "DESIGN.md section 6, C02",
     },
